@@ -156,9 +156,9 @@ func (c *Client) IsClosed() bool {
 		return false
 	}
 }
-func (c *Client) Close()             { _ = c.nc.Close() }
-func (c *Client) LocalAddr() string  { return c.nc.LocalAddr().String() }
-func (c *Client) Received() int64    { return atomic.LoadInt64(&c.nrecv) }
+func (c *Client) Close()            { _ = c.nc.Close() }
+func (c *Client) LocalAddr() string { return c.nc.LocalAddr().String() }
+func (c *Client) Received() int64   { return atomic.LoadInt64(&c.nrecv) }
 
 // Frames returns a copy of everything received so far.
 func (c *Client) Frames() []*Frame {
